@@ -456,3 +456,130 @@ func ruleStatPositive(c *Ctx, rule string) int {
 	}
 	return n
 }
+
+// ruleCopyLooksUpSourceFirst: in the memory filespace's copy operations nothing
+// in the tree is changed before the source was found: every call that can add
+// or remove a node is made on the nil edge of the source lookup.  (A copy whose
+// source is missing - or of the wrong kind - fails, and must leave no freshly
+// created destination directories behind.)
+func ruleCopyLooksUpSourceFirst(c *Ctx, rule string, methods map[string]*ssa.Function) int {
+	mutators := map[string]bool{mq(memfsPkg, "Dir", "addNode"): true, mq(memfsPkg, "Dir", "removeNodeByName"): true}
+	if mk := c.P.Func(memfsPkg, "Dir", "mkdir"); mk != nil {
+		mutators[qualName(mk)] = true
+	}
+	memo := map[*ssa.Function]int{}
+	var mutates func(g *ssa.Function, d int) bool
+	mutates = func(g *ssa.Function, d int) bool {
+		if g == nil || g.Blocks == nil || d > 4 {
+			return false
+		}
+		if mutators[qualName(g)] {
+			return true
+		}
+		if v, ok := memo[g]; ok {
+			return v == 1
+		}
+		memo[g] = 2
+		for _, ci := range Calls(g) {
+			if ci.Static != nil && ci.Static.Pkg == g.Pkg && ci.Kind == "call" && mutates(ci.Static, d+1) {
+				memo[g] = 1
+				return true
+			}
+		}
+		return false
+	}
+	n := 0
+	for _, mn := range []string{"Copy", "CopyDirectory", "CopyFile"} {
+		f := methods[mn]
+		if f == nil {
+			continue
+		}
+		sp := stringParams(f)
+		if len(sp) < 2 {
+			continue
+		}
+		src, dst := sp[0], sp[1]
+		// a method that only hands both paths on to one worker is judged in the worker
+		for hop := 0; hop < 3; hop++ {
+			var next *ssa.Function
+			var nsrc, ndst *ssa.Parameter
+			cnt := 0
+			for _, ci := range Calls(f) {
+				if ci.Static == nil || ci.Kind != "call" || ci.Static.Pkg != f.Pkg || ci.Static.Blocks == nil || !mutates(ci.Static, 0) {
+					continue
+				}
+				cnt++
+				var ps, pd *ssa.Parameter
+				off := len(ci.Static.Params) - len(ci.Common.Args)
+				for i, a := range ci.Common.Args {
+					if i+off < 0 || i+off >= len(ci.Static.Params) {
+						continue
+					}
+					for _, o := range Origins(a, FlowOpts{Transparent: pathTransparent}) {
+						if o.Val == ssa.Value(src) && ps == nil {
+							ps = ci.Static.Params[i+off]
+						}
+						if o.Val == ssa.Value(dst) && pd == nil {
+							pd = ci.Static.Params[i+off]
+						}
+					}
+				}
+				if ps != nil && pd != nil && ps != pd {
+					next, nsrc, ndst = ci.Static, ps, pd
+				}
+			}
+			if cnt != 1 || next == nil {
+				break
+			}
+			f, src, dst = next, nsrc, ndst
+		}
+		sp = []*ssa.Parameter{src, dst}
+		facts := factsFor(f)
+		// source lookups: calls with an error result whose arguments derive from src and that do not mutate
+		var lookups []*ssa.Call
+		for _, ci := range Calls(f) {
+			call, isCall := ci.Instr.(*ssa.Call)
+			if !isCall || ci.Static == nil || ci.Static.Pkg != f.Pkg || errResultIndex(ci.Static.Signature) < 0 || mutates(ci.Static, 0) {
+				continue
+			}
+			fromSrc, fromDest := false, false
+			for _, a := range ci.Common.Args {
+				for _, o := range Origins(a, FlowOpts{Transparent: pathTransparent, Interproc: 1}) {
+					if o.Val == ssa.Value(src) {
+						fromSrc = true
+					}
+					if o.Val == ssa.Value(sp[1]) {
+						fromDest = true
+					}
+				}
+			}
+			if fromSrc && !fromDest {
+				lookups = append(lookups, call)
+			}
+		}
+		n++
+		bad := ""
+		var pos token.Pos
+		if len(lookups) == 0 {
+			bad = "cannot find the lookup of the source node"
+		}
+		for _, ci := range Calls(f) {
+			if ci.Static == nil || ci.Kind != "call" || !mutates(ci.Static, 0) {
+				continue
+			}
+			ok := false
+			for _, l := range lookups {
+				ev := firstOr(resultN(l, errResultIndex(l.Call.Signature())))
+				if ev != nil && dominates(l, ci.Instr) && facts.HoldsOnAllEdges(ci.Block, func(fs factSet) bool { return knownNilIn(fs, ev, true) }) {
+					ok = true
+				}
+			}
+			if !ok && len(lookups) > 0 {
+				bad, pos = "the tree is changed by "+ci.Static.Name()+" before the source node was found", ci.Pos()
+			}
+		}
+		c.Check(bad == "", rule, "memfs.(Filespace)."+mn+" looks the source up before it changes the tree", orPos(pos, f.Pos()), "every add/create follows the successful source lookup",
+			bad+" — a copy that fails (missing source, wrong kind) leaves newly created destination directories behind: nodes that no operation of the model created")
+	}
+	return n
+}
